@@ -58,13 +58,14 @@ let snapshot (st : cstate) =
   Printf.printf "clients %s\n" (String.concat " " cl)
 
 let cmd_of f o =
-  (* fields from index o: L|U reqid flag lockid key tflag timeout eflag expried count rcount *)
-  make_cmd (f.(o) = "L") (nof f.(o+1)) (nof f.(o+2)) (nof f.(o+3)) (nof f.(o+4)) (nof f.(o+5)) (nof f.(o+6)) (nof f.(o+7)) (nof f.(o+8)) (nof f.(o+9)) (nof f.(o+10)) None
+  (* fields from index o: L|U reqid flag lockid key tflag timeout eflag expried count rcount [dbid] *)
+  let db = if Array.length f > o + 11 then nof f.(o+11) else N0 in
+  mk_xcmd db (make_cmd (f.(o) = "L") (nof f.(o+1)) (nof f.(o+2)) (nof f.(o+3)) (nof f.(o+4)) (nof f.(o+5)) (nof f.(o+6)) (nof f.(o+7)) (nof f.(o+8)) (nof f.(o+9)) (nof f.(o+10)) None)
 
 let () =
   let flag i = Array.length Sys.argv > i && Sys.argv.(i) = "1" in
-  let cf = mk_cfg (flag 1) (flag 2) (flag 3) (flag 4) in
-  let ic = if Array.length Sys.argv > 5 then open_in Sys.argv.(5) else stdin in
+  let cf = mk_cfg (flag 1) (flag 2) (flag 3) (flag 4) (flag 5) in
+  let ic = if Array.length Sys.argv > 6 then open_in Sys.argv.(6) else stdin in
   let st = ref (init_cstate Z0 N0) in
   let dead = ref false in
   (try while true do
@@ -80,14 +81,20 @@ let () =
       | a ->
         Printf.printf "act %s\n" (String.concat " " (Array.to_list f));
         let ignorable c = not (usable !st c) in
+        (* outside the modelled fragment (a LOCK creating another database, a DbId on a text connection): never generated *)
+        let check_modelled c x =
+          if usable !st c then begin
+            let (((isbin, _), _), _) = conn_fields (conn_of (!st).cs_conns c) in
+            if not (modelled (if isbin then KBin else KText) x) then print_endline "ev unmodelled"
+          end in
         let act, ign = match a with
           | "open" -> COpen (nof f.(1), if f.(2) = "T" then KText else KBin), false
           | "init" ->
             let c = nof f.(1) in
             let istext = match aget (!st).cs_conns c with Some k -> let (((isbin, _), _), _) = conn_fields k in not isbin | None -> true in
             CInit (c, nof f.(2)), (istext || ignorable c)
-          | "req" -> let c = nof f.(1) in CReq (c, cmd_of f 2), ignorable c
-          | "will" -> let c = nof f.(1) in CWill (c, cmd_of f 2), ignorable c
+          | "req" -> let c = nof f.(1) in let x = cmd_of f 2 in check_modelled c x; CReq (c, x), ignorable c
+          | "will" -> let c = nof f.(1) in let x = cmd_of f 2 in check_modelled c x; CWill (c, x), ignorable c
           | "close" -> let c = nof f.(1) in CClose c, ignorable c
           | "adv" -> CAdvance (z_of_i64 (Int64.of_string f.(1))), false
           | "sweept" -> CSweepT, false
@@ -108,9 +115,10 @@ let () =
           List.iter (function
             | CDropped (o, r) -> Printf.printf "# dropped origin=%s req=%s res=%s\n" (sn o) (sreq r.rp_req) (sn r.rp_res)
             | CSwallowed (c, r) -> Printf.printf "# swallowed conn=%s req=%s res=%s\n" (sn c) (sreq r.rp_req) (sn r.rp_res)
-            | CEngine (c, w, cm) -> Printf.printf "# engine conn=%s will=%d req=%s\n" (sn c) (b2i w) (sreq cm.c_req)
-            | CRegistered (c, cm) -> Printf.printf "# registered conn=%s req=%s\n" (sn c) (sreq cm.c_req)
-            | CRequeued (c, cm) -> Printf.printf "# requeued conn=%s req=%s\n" (sn c) (sreq cm.c_req)
+            | CEngine (c, w, cm) -> Printf.printf "# engine conn=%s will=%d req=%s\n" (sn c) (b2i w) (sreq cm.x_cmd.c_req)
+            | CNoDb (c, w, cm) -> Printf.printf "# nodb conn=%s will=%d req=%s db=%s\n" (sn c) (b2i w) (sreq cm.x_cmd.c_req) (sn cm.x_db)
+            | CRegistered (c, cm) -> Printf.printf "# registered conn=%s req=%s\n" (sn c) (sreq cm.x_cmd.c_req)
+            | CRequeued (c, cm) -> Printf.printf "# requeued conn=%s req=%s\n" (sn c) (sreq cm.x_cmd.c_req)
             | CBlocked c -> Printf.printf "# blocked conn=%s\n" (sn c)
             | CLoopFuel -> print_endline "# loopfuel"
             | _ -> ()) evs;
